@@ -137,9 +137,30 @@ func (w *txWorld) boot(store *verifkit.Store) error {
 	}
 	e.log.onEvent = nil
 	for _, b := range w.tip.Chain() {
+		if !w.blocksProcessed[b.Hash] && b.Height >= w.start {
+			// processed during this (re)sync: blocks mined while the node was down
+			for _, tx := range b.Txs[1:] {
+				if ti := w.byID[*tx.TxHash()]; ti != nil {
+					ti.confirmedAt = append(ti.confirmedAt, b.Height)
+				}
+			}
+		}
 		w.blocksProcessed[b.Hash] = true
 	}
 	return nil
+}
+
+// mineOffline extends the peer's chain while the node is not running (or not connected).
+func (w *txWorld) mineOffline(txs []*txInfo) *verifkit.Block {
+	var ms []*wire.MsgTx
+	names := ""
+	for _, t := range txs {
+		ms = append(ms, t.tx)
+		names += t.name + " "
+	}
+	w.tip = w.tree.Extend(w.tip, ms)
+	w.tracef("peer mines block %d with [%s] while the node is down", w.tip.Height, names)
+	return w.tip
 }
 
 // makeTx builds a transaction. kind: out-push in-push hashed-out none
